@@ -796,12 +796,14 @@ Definition cli_valid (i : cli_input) : bool := match i with InDoc _ => true | _ 
 
 Record cli_state := CliState { out_file : option pstr; exit_code : option N }.
 
-(* step 1: parser.parse_args — FileType('r') on in-file, then FileType('w') on
-   out-file: open(..., 'w') creates/truncates it. *)
-Definition cli_parse_args (i : cli_input) (st : cli_state) : cli_state :=
+(* step 1: parser.parse_args — FileType('r') on in-file, then the out-file argument.
+   eager = true: FileType('w') calls open(..., 'w') here, which creates/truncates the
+   file (the pinned code; T_SchemaTables.cli_output_opened_at_parse is read from the source);
+   eager = false: the output is opened on the first write (proposed fix F14a). *)
+Definition cli_parse_args (eager : bool) (i : cli_input) (st : cli_state) : cli_state :=
   match i with
   | InUnreadable => CliState (out_file st) (Some 2%N)
-  | _ => CliState (Some []) None
+  | _ => if eager then CliState (Some []) None else st
   end.
 (* step 2: in_file.read() — cannot fail on an opened file in the model *)
 Definition cli_read (i : cli_input) (st : cli_state) : cli_state := st.
@@ -818,5 +820,5 @@ Definition cli_write (i : cli_input) (st : cli_state) : cli_state :=
   | None => match i with InDoc code => CliState (Some code) (Some 0%N) | _ => st end
   end.
 
-Definition cli_run (i : cli_input) (before : option pstr) : cli_state :=
-  cli_write i (cli_generate i (cli_read i (cli_parse_args i (CliState before None)))).
+Definition cli_run (eager : bool) (i : cli_input) (before : option pstr) : cli_state :=
+  cli_write i (cli_generate i (cli_read i (cli_parse_args eager i (CliState before None)))).
